@@ -95,7 +95,9 @@ def scenario(sh: Shard, seed, idx, action, t_crash, shape, regime, suspend):
         async def drive_shape(t_end):
             """network script of the shape, until virtual second t_end of the scenario"""
             t0 = mw.w.now
-            if shape == "outage":
+            if shape in ("socket-error", "at-endpoint-creation"):
+                plan = []
+            elif shape == "outage":
                 plan = [(8.0, Phase("blackout", 0)), (300.0, Phase("healthy", 0))]
             elif shape == "rferr":
                 plan = [(8.0, Phase("rferr", 0)), (120.0, Phase("healthy", 0))]
@@ -114,7 +116,35 @@ def scenario(sh: Shard, seed, idx, action, t_crash, shape, regime, suspend):
             mw.man = man
             mw.w.set_regime(regime)
             try:
-                await drive_shape(t_crash)
+                if shape == "at-endpoint-creation":
+                    # the action lands exactly while the k-th endpoint is being opened
+                    hit = {"n": 0, "fut": loop.create_future()}
+                    k = int(t_crash)
+
+                    def hook(tr):
+                        if not tr.kw.get("allow_broadcast"):
+                            hit["n"] += 1
+                            if hit["n"] == k and not hit["fut"].done():
+                                hit["fut"].set_result(True)
+
+                    loop.creation_hook = hook
+                    if k == 2:
+                        # the second connection of this manager: connect, reset, wait for the re-connect
+                        await mw.wait_state("CONNECTED", 60)
+                        await man.async_reset()
+                    try:
+                        await asyncio.wait_for(hit["fut"], 120)
+                    except asyncio.TimeoutError:
+                        out["harness_problem"] = "connection endpoint never created"
+                    loop.creation_hook = None
+                else:
+                    await drive_shape(t_crash)
+                if shape == "socket-error":
+                    # an ICMP / send error reaches the protocol of every open connection first
+                    for tr in list(loop.transports):
+                        if not tr.closed and not tr.kw.get("allow_broadcast"):
+                            tr.protocol.error_received(OSError(101, "Network is unreachable"))
+                            out["errors_injected"] = out.get("errors_injected", 0) + 1
                 out["state_at_crash"] = man._spa_state.name
                 before_tr = list(loop.transports)
                 before_tasks = lib_tasks(loop, ("SPA", "FACADE"))
@@ -177,6 +207,9 @@ def scenario(sh: Shard, seed, idx, action, t_crash, shape, regime, suspend):
         except Watchdog as e:
             sh.inconc(f"watchdog {e}")
             return
+        if out.get("harness_problem"):
+            sh.inconc(out["harness_problem"])
+            return
         sh.evaluations += 1
         wit = {"action": action, "at": t_crash, "shape": shape, "regime": regime, "suspend": suspend, "state_at_crash": out.get("state_at_crash"), "scenario": f"{seed}:{idx}"}
         # the non-atomic reset of C08/C09 (sequence pump made progress while the reset was
@@ -194,6 +227,9 @@ def scenario(sh: Shard, seed, idx, action, t_crash, shape, regime, suspend):
         sh.count("observer_calls_total", len(wat.calls))
         sh.count("generations_watched", wat.generation)
         sh.count("transports_created", len(loop.transports))
+        sh.count("socket_errors_injected", out.get("errors_injected", 0))
+        if shape == "at-endpoint-creation":
+            sh.count("actions_at_endpoint_creation")
         sh.see("states_at_crash", f"{action}:{out.get('state_at_crash')}")
         sh.nontrivial(f"{label}:{out.get('state_at_crash')}")
         if len(sh.samples) < 2:
@@ -302,6 +338,15 @@ def main(tier, seed):
                 for t in ts:
                     cases.append({"idx": idx, "action": action, "t": t, "shape": shape, "regime": regime, "suspend": "tick" if idx % 2 else "none"})
                     idx += 1
+    for action in ("reset", "exit"):
+        for regime in regimes:
+            for k in (1, 2):
+                for suspend in ("none", "tick"):
+                    cases.append({"idx": idx, "action": action, "t": float(k), "shape": "at-endpoint-creation", "regime": regime, "suspend": suspend})
+                    idx += 1
+            for t in (2.0, 4.5, 20.0, 65.0):
+                cases.append({"idx": idx, "action": action, "t": t, "shape": "socket-error", "regime": regime, "suspend": "none"})
+                idx += 1
     n = NCPU
     jobs = [{"seed": seed, "cases": cases[i::n], "ncycles": (12 if tier == "quick" else 50) if i < 2 else 0} for i in range(n)]
     run.absorb(run_shards("checks.c10", "shard", jobs, timeout=3400))
@@ -313,6 +358,8 @@ def main(tier, seed):
             run.need(f"{a}:{st}" in sc, f"no {a} injected in state {st}")
     run.need(any(s.split(":")[1].startswith("ERROR_") for s in sc), "no crash point in an error state")
     run.need(run.counters.get("reconnect_cycles", 0) >= 10, "reconnect cycles not run")
+    run.need(run.counters.get("socket_errors_injected", 0) >= 4, "socket errors before reset/exit not exercised")
+    run.need(run.counters.get("actions_at_endpoint_creation", 0) >= 4, "no reset/exit landed exactly at an endpoint creation")
     run.extra["crash_points"] = len(cases)
     return run.finish(
         rule="crash-point enumeration: a reset, and separately the context exit, injected at every instant of a 100 ms grid (thorough: 50 ms, three regimes, handlers none/tick) over locate + handshake, at steady-state instants and at instants of outage / RF-error scripts (error states), plus 12-50 reconnect cycles; one evaluation = one injected reset/exit; distinct = distinct (action, instant, shape, regime, handler, state at crash)",
